@@ -1077,6 +1077,50 @@ GENERATORS = {'LEVINSON': gen_LEVINSON, 'HERMTOEP': gen_HERMTOEP, 'TOEPLITZ': ge
 EXACT_BUDGET = {'LEVINSON': (64, 400), 'HERMTOEP': (48, 300), 'TOEPLITZ': (56, 300), 'levup': (45, 200), 'levdown': (44, 200),
                 'arburg': (65, 400), 'CORRELATION': (68, 400), 'minvar_psi': (48, 300)}
 
+# ---------------------------------------------------------------- LEVINSON: translation + theorem
+LEV_PROOF = 'Proofs/LoopIRLevinson.v'
+LEV_THEOREMS = ['loopir_LEVINSON_complex', 'loopir_LEVINSON_real']
+LEV_BLOCK = """
+(* The program regenerated on this run is, term for term, the one Proofs/LoopIRLevinson.v is about: its theorems apply. *)
+Require Import Spectrum.Theory.Ops Spectrum.Theory.Vec Spectrum.Model.Levinson Spectrum.Proofs.LoopIRLevinson.
+Lemma prog_LEVINSON_is_ref : prog_LEVINSON = prog_LEVINSON_ref.
+Proof. reflexivity. Qed.
+Theorem loopir_LEVINSON_complex :
+  forall (F : Type) (OF : Ops F) (L : Laws OF) (feq : F -> F -> bool) (stop : Z -> F -> F -> bool)
+         (r : list F) (order : option nat) (allow : option bool),
+  r <> [] ->
+  let ord := match order with Some o => o | None => (length r - 1)%nat end in
+  let al := match allow with Some b => b | None => false end in
+  run feq stop prog_LEVINSON [Some (VArr false r); option_map (fun o => VI (Z.of_nat o)) order; option_map VB allow] =
+  match levinson r ord al with
+  | Some (A, P, ks) => ORet [VArr false A; VF P; VArr false ks]
+  | None => OErr (if (ord <=? length r - 1)%nat then ValueError else AssertionError)
+  end.
+Proof. intros. rewrite prog_LEVINSON_is_ref. apply levinson_ir_complex; assumption. Qed.
+Theorem loopir_LEVINSON_real :
+  forall (F : Type) (OF : Ops F) (L : Laws OF) (feq : F -> F -> bool) (stop : Z -> F -> F -> bool)
+         (r : list F) (order : option nat) (allow : option bool),
+  r <> [] -> (forall j, conj (nthF r j) = nthF r j) -> le0 (re (nthF r 0)) = false ->
+  match allow with Some b => b | None => false end = false ->
+  let ord := match order with Some o => o | None => (length r - 1)%nat end in
+  run feq stop prog_LEVINSON [Some (VArr true r); option_map (fun o => VI (Z.of_nat o)) order; option_map VB allow] =
+  match levinson r ord false with
+  | Some (A, P, ks) => ORet [VArr true A; VF P; VArr true ks]
+  | None => OErr (if (ord <=? length r - 1)%nat then ValueError else AssertionError)
+  end.
+Proof. intros. rewrite prog_LEVINSON_is_ref. apply levinson_ir_real; assumption. Qed.
+Print Assumptions loopir_LEVINSON_complex.
+Print Assumptions loopir_LEVINSON_real.
+"""
+
+
+def levinson_reference_text():
+    """the program text Proofs/LoopIRLevinson.v was proved about (between its BEGIN/END markers)"""
+    t = open(os.path.join(vlib.COQ, LEV_PROOF)).read()
+    m = re.search(r'\(\* BEGIN GENERATED LEVINSON[^\n]*\*\)\n(.*?)\(\* END GENERATED LEVINSON \*\)', t, re.S)
+    return m.group(1).replace('prog_LEVINSON_gen0', 'prog_LEVINSON') if m else None
+
+
 TRUSTED_LINE = ("loop-IR tie: the translator tools/props/_loopir.py (Python ast -> IR, fail-closed) and the IR interpreter coq/Model/LoopIR.v "
                 "(semantics of the accepted Python/numpy fragment; arrays by value, no rounding) are trusted; the IR program is regenerated from the "
                 "snapshot source on every run and evaluated exactly (QcC, zero tolerance) against the hand-written model")
@@ -1110,9 +1154,26 @@ def loopir_tie(ctx, names):
             ctx.broken.append({'theorem': 'loopir: build of the interpreter', 'where': 'Model/LoopIRTie.v', 'log': log[-1500:]})
             return
     defs = ''.join(p.coq() + '\n' for p in progs.values())
-    ok, _ = ctx.check_generated('LoopIR_%s' % ctx.pid, GEN_HEADER + defs, [])
+    gen = GEN_HEADER + defs; thms = []
+    if 'LEVINSON' in progs:
+        # translation + theorem: applies only to the very program text the theorem was proved about
+        ref = levinson_reference_text()
+        same = ref is not None and ' '.join(ref.split()) == ' '.join(progs['LEVINSON'].coq().split())
+        info['LEVINSON']['theorem'] = ('applies: the regenerated program is the one %s is about (re-checked by reflexivity inside Coq)' % LEV_PROOF) if same else \
+            'does not apply: the regenerated program text differs from the one proved about; the exact evaluation tie decides'
+        if same:
+            vo = os.path.join(vlib.COQ, LEV_PROOF[:-2] + '.vo')
+            if not os.path.exists(vo) or os.path.getmtime(vo) < os.path.getmtime(os.path.join(vlib.COQ, LEV_PROOF)):
+                rc, log = vlib.make_cone(LEV_PROOF[:-2] + '.vo')
+                if rc != 0:
+                    ctx.broken.append({'theorem': 'loopir: build of %s' % LEV_PROOF, 'where': LEV_PROOF, 'log': log[-1500:]}); same = False
+        if same:
+            gen += LEV_BLOCK; thms = LEV_THEOREMS
+    ok, _ = ctx.check_generated('LoopIR_%s' % ctx.pid, gen, thms)
     if not ok:
-        return
+        if not thms:
+            return
+        # the programs themselves may still be fine: the exact tie below decides about them
     pre = PRE + defs
     jobs = []
     for nm, p in progs.items():
